@@ -331,7 +331,22 @@ func genA(t *rapid.T) CaseA {
 					}
 				}
 				file = FileA{Name: fmt.Sprintf("f%d_%d.hcl", fi, pi), Src: n.Body(p, 0)}
-				if rapid.IntRange(0, 9).Draw(t, "format") >= 7 {
+				// heredoc-template: heredocs re-spelled as templates whose body
+				// begins directly with ${...} / %{...} (heredoc_test.go); such a file
+				// goes through hclwrite.Format half of the time
+				formatFrom := 7
+				if src, kinds := heredocTemplates(t, file.Src); len(kinds) > 0 {
+					file.Src = src
+					steps["heredoc-template"] = true
+					for _, k := range kinds {
+						stats["heredoc-template:"+k]++
+					}
+					formatFrom = 5
+				}
+				if rapid.IntRange(0, 9).Draw(t, "format") >= formatFrom {
+					if formatFrom < 7 {
+						stats["heredoc-template:formatted"]++
+					}
 					file.Format = true
 					steps["format"] = true
 				}
